@@ -75,6 +75,13 @@ func (s *Sched) parentOf(g uint64) uint64 {
 
 var cur atomic.Pointer[Sched]
 
+var epoch atomic.Uint64
+
+// NewEpoch marks the start of a new execution (bubble); Epoch is read by shims that must not carry
+// objects from one execution into the next.
+func NewEpoch()     { epoch.Add(1) }
+func Epoch() uint64 { return epoch.Load() }
+
 // Install makes s the active scheduler (nil = pass-through: shims use native primitives).
 func Install(s *Sched) { cur.Store(s) }
 func Current() *Sched  { return cur.Load() }
